@@ -114,11 +114,17 @@ def direct_oracle(x):
     sure, maybe = [], []
     cur = None
     fcol = "column" if (x.desc["file"] or "").endswith(".gpf") else ("month-dir" if (x.desc["file"] or "").isdigit() and len(x.desc["file"]) <= 2 else (x.desc["file"] or "")[:9])
+    sidx = -1
     for e in x.events:
         if e["ev"] == "W_Begin":
             cur = list(e["bs"])
+            sidx += 1
         elif e["ev"] == "W_Return":
             (sure if e["res"] == "ok" else maybe).append(cur or [])
+            if e["res"] != "ok" and x.desc["mode"] != "clean" and sidx > x.desc["session"]:
+                # a write-out AFTER the interrupted / faulted one (nothing is injected into it) must succeed
+                out.append(({"mode": x.desc["mode"], "call": x.desc["call"], "file": fcol, "kind": "later-writeout-fails"},
+                            "the write-out of blocks %s after the interrupted one returned an error: %s" % (cur, e.get("msg", "")[:200])))
             cur = None
         elif e["ev"] == "Crash":
             if cur is not None:
